@@ -28,6 +28,12 @@
    Numbers are uint64 in the code; the spec works on naturals below Wrap and maps every wrapped /
    huge value to Wrap (the harness clamps its log the same way), see UMinus.
 
+   Huge CU: a relay whose CuSum is 2^64-5 is written cu = Wrap.  The spec compares and adds on the
+   naturals (Sat), i.e. it states the INTENDED behaviour: such a relay can never fit a badge
+   allocation or a limit.  The code as found adds in uint64 and wraps (F22: checkBadge accepts it,
+   usage counters shrink); the repaired comparison (fixes/F22_badge_cu_overflow.patch) behaves like
+   the spec.  Only the c18 generator draws it (mutation "badgehuge").
+
    F2Fixed selects the transcription of EnforceClientCUsUsageInEpoch: FALSE = the code as found
    (`return effectivePolicyTotalCu - project.UsedCu` in the total-limit branch), TRUE = the repaired
    function (fixes/F2_cu_underflow.patch).  checks/C04.py picks the variant the real code conforms to. *)
@@ -127,6 +133,13 @@ BadgeMap(rs, i) ==
        ELSE {m \in rest : ~(m.u = b.u /\ m.e = b.e /\ m.o = b.o)} \cup {b}
 \* (built back to front so that the earliest relay's badge replaces later ones = first wins)
 
+\* the badge the code applies to relay i of a transaction: the FIRST badge of the transaction issued to the
+\* relay's signer for the relay's block (not necessarily the badge attached to that relay)
+AppliedBadge(rs, i) ==
+  LET r == rs[i]
+      cand == {b \in BadgeMap(rs, 1) : b.u = r.sg /\ b.e = r.e /\ b.o = r.o} IN
+  IF r.tm # "none" \/ cand = {} THEN NoBadge ELSE CHOOSE b \in cand : TRUE
+
 Rej(S) == [S EXCEPT !.nrej = @ + 1, !.out = Append(@, [acc |-> FALSE, rew |-> -1, proj |-> "-"])]
 Hard(S) == [S EXCEPT !.status = "hard"]
 
@@ -207,9 +220,8 @@ GSum(L, i, F) ==
 RECURSIVE GBadge(_, _, _)
 GBadge(L, i, F) ==
   IF i > Len(L.rs) THEN F
-  ELSE IF ~(L.ok /\ L.out[i].acc) \/ L.rs[i].b.u = "-" \/ L.rs[i].b.u # L.rs[i].sg THEN GBadge(L, i + 1, F)
-  ELSE LET k == BKey(L.rs[i].b, L.p) IN GBadge(L, i + 1, Put(F, k, Sat(Get(F, k) + L.out[i].rew)))
-\* (a relay counts as "through the badge" when its signer is the badge's user; see BadgeHonoured)
+  ELSE IF ~(L.ok /\ L.out[i].acc) \/ AppliedBadge(L.rs, i).u = "-" THEN GBadge(L, i + 1, F)
+  ELSE LET k == BKey(AppliedBadge(L.rs, i), L.p) IN GBadge(L, i + 1, Put(F, k, Sat(Get(F, k) + L.out[i].rew)))
 
 Ghosts(L) ==
   LET a == GOnce(L, 1, [once |-> credOnce, twice |-> credTwice]) IN
@@ -307,6 +319,7 @@ MutAt(r, m, c, o, ea) ==
     [] m = "qone"       -> [r EXCEPT !.q = "one"]
     [] m = "badge"      -> [r EXCEPT !.sg = "b1", !.b = BadgeFor(r, 200)]
     [] m = "badgesmall" -> [r EXCEPT !.sg = "b1", !.b = BadgeFor(r, 100)]
+    [] m = "badgehuge"  -> [r EXCEPT !.sg = "b1", !.cu = Wrap, !.b = BadgeFor(r, 200)]       \* CuSum = 2^64-5 (see Huge CU below)
     [] m = "badgeuser"  -> [r EXCEPT !.sg = "b2", !.b = BadgeFor(r, 200)]                    \* somebody else's badge
     [] m = "badgeepoch" -> [r EXCEPT !.sg = "b1", !.b = [BadgeFor(r, 200) EXCEPT !.o = 1 - r.o]]
     [] m = "badgechain" -> [r EXCEPT !.sg = "b1", !.b = [BadgeFor(r, 200) EXCEPT !.lc = FALSE]]
@@ -322,6 +335,7 @@ TxChoices(p) == {<<r>> : r \in RelayChoices(p, Muts)}
                 \cup (IF MaxRelays >= 2
                       THEN {<<r1, r2>> : r1 \in Bases(p), r2 \in RelayChoices(p, Muts2)}
                            \cup {<<r1, r2>> : r1 \in RelayChoices(p, Muts2 \ {"none"}), r2 \in Bases(p)}
+                           \cup {<<r1, r2>> : r1 \in RelayChoices(p, {"badge"} \cap Muts), r2 \in RelayChoices(p, {"badgesmall"} \cap Muts)}  \* two badges of one user
                       ELSE {})
                 \cup (IF MaxRelays >= 3
                       THEN {<<r1, r2, r3>> : r1 \in Bases(p), r2 \in RelayChoices(p, Muts2), r3 \in Bases(p)}
@@ -343,7 +357,7 @@ Uniform(S) == [x \in S |-> 1]
 GMuts == CASE Profile = "c03" -> ("none" :> 12 @@ "qzero" :> 1 @@ "badge" :> 2 @@ "badgeplain" :> 1 @@ "nonstart" :> 1 @@ "specdis" :> 1
                                   @@ "expired" :> 2 @@ "unknown" :> 1 @@ "future" :> 1)
            [] Profile = "c04" -> ("none" :> 8 @@ "qzero" :> 2 @@ "qone" :> 1 @@ "badge" :> 1)
-           [] Profile = "c18" -> ("badge" :> 6 @@ "badgesmall" :> 6 @@ "none" :> 2 @@ "badgeuser" :> 1 @@ "badgeepoch" :> 1 @@ "badgechain" :> 1
+           [] Profile = "c18" -> ("badge" :> 6 @@ "badgesmall" :> 6 @@ "badgehuge" :> 1 @@ "none" :> 2 @@ "badgeuser" :> 1 @@ "badgeepoch" :> 1 @@ "badgechain" :> 1
                                   @@ "badgeissuer" :> 1 @@ "badgeplain" :> 1 @@ "qzero" :> 1 @@ "expired" :> 1)
            [] OTHER -> [m \in Muts |-> IF m = "none" THEN Cardinality(Muts) ELSE 1]
 GCUs == CASE Profile = "c04" -> (10 :> 1 @@ 60 :> 3 @@ 100 :> 2 @@ 150 :> 3 @@ 1000 :> 1)
@@ -357,12 +371,14 @@ GCreators == IF Profile = "c05" THEN Uniform(Creators) ELSE [p \in Creators |-> 
 GenRelay1(p, sg, e, ss, cu, m) == Mut(Base(p, sg, e, ss, cu), m)
 GenRelay(p) == GenRelay1(p, Pick(GSigners), Pick((cur :> 3) @@ Uniform({x \in {cur - 1, cur - 2} : x >= 0})),
                          Pick(Uniform(Sessions)), Pick(GCUs), Pick(GMuts))
-\* dup = 1: second relay repeats the first, 2: same session re-signed with another CU
+\* dup = 1: second relay repeats the first, 2: same session re-signed with another CU, 3 (c18 only): huge CuSum
 GenPay2(p, n, dup, r1, r2, r3, cu2) ==
-  LET r2d == IF dup = 1 THEN r1 ELSE IF dup = 2 THEN [r1 EXCEPT !.cu = cu2] ELSE r2
+  LET r2d == IF dup = 1 THEN r1 ELSE IF dup = 2 THEN [r1 EXCEPT !.cu = cu2]
+             ELSE IF dup = 3 /\ r1.b.u # "-" /\ r1.b.u = r1.sg THEN [r1 EXCEPT !.cu = Wrap, !.ss = (r1.ss % 3) + 1]      \* same badge, another session, CuSum = 2^64-5
+             ELSE r2
       rs == IF n = 1 THEN <<r1>> ELSE IF n = 2 THEN <<r1, r2d>> ELSE <<r1, r2d, r3>>
   IN RelayPay(p, rs)
-GenPay1(p) == GenPay2(p, Pick(Uniform(1..MaxRelays)), Pick(0 :> 2 @@ 1 :> 1 @@ 2 :> 1), GenRelay(p), GenRelay(p), GenRelay(p), Pick(GCUs))
+GenPay1(p) == GenPay2(p, Pick(Uniform(1..MaxRelays)), Pick(0 :> 2 @@ 1 :> 1 @@ 2 :> 1 @@ 3 :> (IF Profile = "c18" THEN 1 ELSE 0)), GenRelay(p), GenRelay(p), GenRelay(p), Pick(GCUs))
 GenPay == GenPay1(Pick(GCreators))
 GenStep(k, d) ==
   \/ k = "pay" /\ GenPay
@@ -430,12 +446,13 @@ C04_QosProp == [][C04_Qos]_vars
 \* ---- C05: only authentic, paired relays are accepted; everything else changes nothing
 Authentic(L, i) ==
   LET r == L.rs[i]
-      viaBadge == r.b.u # "-" /\ r.b.u = r.sg
-      dev == IF viaBadge THEN r.b.is ELSE r.sg
+      ab == AppliedBadge(L.rs, i)
+      viaBadge == ab.u # "-"
+      dev == IF viaBadge THEN ab.is ELSE r.sg
       pr == DevProject(dev) IN
   /\ r.tm = "none"                                   \* signature covers the submitted fields
   /\ pr # "-" /\ ProjEnabled(pr) /\ pr = L.out[i].proj  \* developer key (or badge signed by one) of an enabled project, charged to it
-  /\ viaBadge => (r.b.lc /\ r.b.e = r.e /\ r.b.o = r.o)
+  /\ viaBadge => ab.lc                               \* (badge user and block equal the relay's by construction)
   /\ r.pf = L.p /\ r.lc
   /\ r.e >= earliest /\ BlockLe(r.e, r.o, cur, off) /\ r.o = 0
   /\ SpecOK(r.sp) /\ L.p \in Paired(r.sp)
@@ -447,14 +464,13 @@ C05_StepProp == [][C05_Step]_vars
 \* ---- C18: badge usage <= allocation; honoured only for its user / epoch / chain and before expiry
 C18_UsedLeAlloc == \A r \in bused : r.v <= r.k[5]              \* state invariants
 C18_CreditLeAlloc == \A r \in bcred : r.v <= r.k[5]
-C18_Step == LET L == last' IN
-  \A i \in Acc(L) :
-     LET r == L.rs[i] IN
-     (r.b.u # "-" /\ r.b.u = r.sg) =>
-        /\ r.b.lc /\ r.b.e = r.e /\ r.b.o = r.o
-        /\ ~BadgeExpired(r.b, cur, off)
-        /\ Has(bused', BKey(r.b, L.p))
-        /\ Get(bused', BKey(r.b, L.p)) >= Get(bused, BKey(r.b, L.p)) + r.cu
+C18_Step ==
+  LET L == last'
+      B == {i \in Acc(L) : AppliedBadge(L.rs, i).u # "-"}
+      keys == {BKey(AppliedBadge(L.rs, i), L.p) : i \in B} IN
+  /\ \A i \in B : AppliedBadge(L.rs, i).lc /\ ~BadgeExpired(AppliedBadge(L.rs, i), cur, off)
+  /\ \A k \in keys : /\ Has(bused', k)
+                      /\ Get(bused', k) >= Get(bused, k) + SumCu(L, {i \in B : BKey(AppliedBadge(L.rs, i), L.p) = k})
 C18_StepProp == [][C18_Step]_vars
 
 TypeOK == /\ cur \in 0..MaxEpoch /\ off \in {0, 1} /\ earliest \in 0..cur /\ Len(df) = cur + 1
